@@ -218,6 +218,11 @@ def run(ctx):
              "all other data keys are delivered", floor=2)
     own_arguments_rule(ctx, program, "R08.12")
 
+    ctx.rule("R08.13", "legacy subsystem: a function with several trigger decorators gets one trigger task per round, each with at most one trigger of each type - the ones "
+             "not handed out yet - and every task with the function's @state_active / @time_active / @task_unique (a task that inherits an earlier round's event trigger runs "
+             "the function twice per event; one that lacks the guards runs unguarded)", floor=3)
+    legacy_grouping_table(ctx, program, "R08.13")
+
     ctx.rule("R08.2", "every fan-out gives each subscriber a fresh copy of the argument dictionary", floor=4)
     fanout_copy_rule(ctx, program, "R08.2")
 
@@ -475,3 +480,53 @@ def own_arguments_rule(ctx, program, rid):
         ctx.check(bad is None, rid, uid, "payload keys do not replace trigger_type / event_type / context",
                   msg=f"{uid} for an event 'ev' whose data is {{n: 1, trigger_type: 'time', event_type: 'other', context: 'kitchen', trigger_time: ...}}: {bad}",
                   key="event own arguments", node=f, rel=uid.split("::")[0])
+
+
+def legacy_grouping_table(ctx, program, rid):
+    """EvalFunc.trigger_init interpreted on concrete decorator lists: the argument dictionaries handed to get_trig_info, round by round."""
+    uid = "eval.py::EvalFunc.trigger_init"
+    glob = {"TRIG_SERV_DECORATORS": ListV(tuple(Const(x) for x in ("service", "state_trigger", "event_trigger", "time_trigger", "mqtt_trigger", "webhook_trigger", "state_active",
+                                                                   "time_active", "task_unique")), "set"), "DOMAIN": Const("pyscript")}
+
+    def dec(name, *args, **kw):
+        return ListV((Const(name), ListV(tuple(Const(a) for a in args), "list"), DictV([(Const(k), Const(v)) for k, v in kw.items()]) if kw else Const(None)), "list")
+
+    cases = [
+        ("two state triggers, one event trigger, guards", [dec("state_trigger", "d.a == '1'"), dec("state_trigger", "d.b == '1'"), dec("event_trigger", "ev"), dec("state_active", "d.g == '1'"),
+                                                           dec("task_unique", "n", kill_me=True), dec("time_active", "range(8:00, 9:00)")],
+         [{"state_trigger": "d.a == '1'", "event_trigger": "ev", "state_active": "d.g == '1'", "task_unique": "n", "time_active": "range(8:00, 9:00)"},
+          {"state_trigger": "d.b == '1'", "state_active": "d.g == '1'", "task_unique": "n", "time_active": "range(8:00, 9:00)"}]),
+        ("three event triggers, one webhook trigger", [dec("event_trigger", "e1"), dec("event_trigger", "e2"), dec("webhook_trigger", "hook"), dec("event_trigger", "e3"), dec("task_unique", "n")],
+         [{"event_trigger": "e1", "webhook_trigger": "hook", "task_unique": "n"}, {"event_trigger": "e2", "task_unique": "n"}, {"event_trigger": "e3", "task_unique": "n"}]),
+        ("one trigger of each of two types", [dec("state_trigger", "d.a == '1'"), dec("time_trigger", "once(3:00)")], [{"state_trigger": "d.a == '1'", "time_trigger": "once(3:00)"}]),
+    ]
+    for label, decs, want in cases:
+        made = []
+
+        def get_trig_info(i, n, a, k, c, o, made=made):
+            d = a[1] if len(a) > 1 else None
+            row = {}
+            if isinstance(d, DictV):
+                for kk, vv in d.items:
+                    if kk.v in ("action", "global_sym_table"):
+                        continue
+                    args = vv.get(Const("args")) if isinstance(vv, DictV) else None
+                    row[kk.v] = args.items[0].v if isinstance(args, ListV) and args.items and isinstance(args.items[0], Const) else (args.v if isinstance(args, Const) else repr(vv))
+            made.append(row)
+            return [(c, ObjV(f"trig{len(made)}", "TrigInfo"))]
+
+        pol = FlowPolicy(program, may_raise_all=False, cancel=False, globals_=glob,
+                         summaries={"trig_ctx.get_name": lambda i, n, a, k, c, o: [(c, Const("file.x"))], "trig_ctx.get_trig_info": get_trig_info,
+                                    "trig_ctx.trigger_register": lambda i, n, a, k, c, o: [(c, Const(False))], "self.global_ctx.set_logger_name": lambda i, n, a, k, c, o: [(c, NONE)],
+                                    "logging.getLogger": lambda i, n, a, k, c, o: [(c, Sym(("logger",)))]})
+        pol.loop_unroll = 10
+        heap = {"self.trigger_service": ListV((), "set"), "self.trigger": ListV((), "list"), "self.decorators": ListV(tuple(decs), "list"), "self.doc_string": Const("doc"),
+                "self.global_ctx": ObjV("g", "GlobalContext"), "g.global_sym_table": DictV([])}
+        out = run_flow(program, uid, pol, args={"self": ObjV("self", "EvalFunc"), "trig_ctx": ObjV("tctx", "GlobalContext"), "func_name": Const("f")}, heap=heap)
+        ex = exits(out)
+        bad = None
+        if len(ex) != 1 or ex[0][0] != "return":
+            bad = f"exits {[d for k, c, d in ex]}"
+        elif made != want:
+            bad = f"trigger tasks are built with {made}, specified {want}"
+        ctx.check(bad is None, rid, uid, f"legacy grouping: {label}", msg=f"legacy trigger_init, {label}: {bad}", key=f"legacy grouping {label}", node=program.func(uid), rel="eval.py")
